@@ -1256,7 +1256,7 @@ def dict_method(it, o: dict, name):
     if name == 'items':
         return Native('dict.items', lambda it2, a, k: [(kk, v) for kk, v in o.items()])
     if name == 'keys':
-        return Native('dict.keys', lambda it2, a, k: list(o.keys()))
+        return Native('dict.keys', lambda it2, a, k: KeysList(o.keys()))
     if name == 'values':
         return Native('dict.values', lambda it2, a, k: list(o.values()))
     if name == 'pop':
@@ -1296,6 +1296,26 @@ def dict_method(it, o: dict, name):
     if name == 'copy':
         return Native('dict.copy', lambda it2, a, k: dict(o))
     raise Unsupported(f'dict.{name}')
+
+
+class KeysList(list):
+    """dict.keys(): a list (iteration order) that also supports the set operations of a keys view on concrete keys"""
+
+    def pyvc_binop(self, it, op, other, reflected):
+        import ast as _ast
+        if not isinstance(other, (list, set, frozenset, tuple)):
+            return NotImplemented
+        a, b = (list(other), list(self)) if reflected else (list(self), list(other))
+        try:
+            if isinstance(op, _ast.Sub):
+                return {x for x in a if x not in b}
+            if isinstance(op, _ast.BitAnd):
+                return {x for x in a if x in b}
+            if isinstance(op, _ast.BitOr):
+                return set(a) | set(b)
+        except TypeError:
+            return NotImplemented
+        return NotImplemented
 
 
 def set_method(it, o: set, name):
